@@ -381,6 +381,21 @@ def main():
         n_eval["C01"] += 1
         if not eq_msg(back, m):
             rec("C01", "unpack(pack(m)) == m in every field", m, f"second pass (after other messages were decoded): decoded {back!r}"[:400])
+    # decoding depends on the options as they are now, not as they were when first used: a known control class taken out of
+    # options.control.choices in place (same list, same length) is no longer used for its OID
+    n_eval["C01"] += 1
+    try:
+        o = PackingOptions()
+        paged = ExtendedRequest(message_id=1, controls=[PagedResultControl(False, 5, b"c")], name="1.2", value=None)
+        pdata = bytes(paged.pack(o))
+        r1 = unpack_ldap_message(ASN1Reader(pdata), o)
+        k = o.control.choices.index(PagedResultControl)
+        o.control.choices[k] = ShowDeletedControl          # replaced in place: the list keeps its length
+        r2 = unpack_ldap_message(ASN1Reader(pdata), o)
+        if type(r1.controls[0]) is not PagedResultControl or type(r2.controls[0]) is not LDAPControl or r2.controls[0].value != paged.controls[0].get_value(o.control):
+            rec("C01", "unpack(pack(m)) == m in every field", paged, f"options changed in place between two decodes: first {r1.controls[0]!r}, then {r2.controls[0]!r} (expected the opaque LDAPControl carrying the same value)"[:400])
+    except Exception as e:
+        rec("C01", "unpack(pack(m)) succeeds", paged, f"options changed in place between two decodes: {type(e).__name__}: {e}")
     # encoding has no memory: after packs that FAIL half-way (one leaf of a message replaced by a value of the wrong type, at every
     # position of the message tree) every message still encodes to the bytes it encoded to before
     first = {}
